@@ -114,6 +114,9 @@ def execute_objs(beh):
                 eqs[op['eq']].AddTerm(form_text(op['form']))
             elif op['kind'] == 'new':
                 t = Term(form_text(op['form']))
+                if op['form'].get('w2', 2) != 2:
+                    # the caller gives the Term object a weight (Term.Constant is the public coefficient)
+                    t.Constant = t.Constant * op['form']['w2'] / 2
                 pool.append(t)
                 eqs[op['eq']].AddTerm(t)
             else:
